@@ -116,7 +116,7 @@ class Gen:
                     out.append(self.call_node(d, allow_self))
             elif x < 0.66 and depth < 3:
                 self.nloop += 1
-                out.append({"t": "for", "i": self.cid(), "n": r.choice((1, 2, 2, 3)), "v": self.nloop,
+                out.append({"t": "for", "c": self.cid(), "i": self.cid(), "n": r.choice((1, 2, 2, 3)), "v": self.nloop,
                             "body": self.gen_body(defs, depth + 1, True, aware, False, includes, allow_self=allow_self, nmax=3, ccall_ok=ccall_ok)})
             elif x < 0.71 and in_loop:
                 out.append({"t": "loopidx"})
@@ -236,7 +236,7 @@ def emit_node(n):
     if t == "textf":
         return '<%%text filter="flt(%d)">%s</%%text>' % (n["i"], n["s"])
     if t == "for":
-        return "\\\n%% for x%d in it(%d, %d):\n%s\\\n%% endfor\n" % (n["v"], n["i"], n["n"], emit_nodes(n["body"]))
+        return "\\\n%% for x%d in it(%d, %d, %s):\n%s\\\n%% endfor\n" % (n["v"], n["i"], n["n"], n.get("c"), emit_nodes(n["body"]))
     if t == "try":
         return "\\\n% try:\n" + emit_nodes(n["body"]) + "\\\n% except Boom as e:\n" + emit_nodes(n["handler"]) + "\\\n% endtry\n"
     if t == "call":
